@@ -5,4 +5,4 @@ From Coq Require Import Extraction ExtrOcamlBasic.
 From BS Require Import Base MpSpec MpModel StreamIStream StreamSpec StreamModel MpStreamModel MpStreamProofs.
 Extraction Language OCaml.
 Extraction "../ml/gen/mpstream_model.ml" mps_run_mem mps_run_bsr mps_run_mem_pos mps_run_bsr_pos str_run stream_of rop_ok
-  mps_client_mem mps_client_bsr str_client_run find_by_key nonseek_ok.
+  mps_client_mem mps_client_bsr str_client_run find_by_key nonseek_ok lookahead_free forward_op.
